@@ -943,6 +943,13 @@ class TelnetTransport(Telnet, ProtocolTransportMixin):
     def write(self, data):
         ProtocolTransportMixin.write(self, data.replace(b"\xff", b"\xff\xff"))
 
+    def writeSequence(self, seq):
+        # Application data must get the same treatment as in write(): IAC
+        # doubled and LF sent as CR LF.  Passing the sequence straight to the
+        # underlying transport would let b"\xff\xf4" in application data
+        # reach the peer as an IP command.
+        self.write(b"".join(seq))
+
 
 class TelnetBootstrapProtocol(TelnetProtocol, ProtocolTransportMixin):
     protocol = None
